@@ -172,7 +172,7 @@ class C15:
     @staticmethod
     def generate(S, tier):
         P = _p(); Q = _q(); rng = S.rng
-        stats = {"proofs": 0, "field_edits": 0, "mismatches": 0}
+        stats = {"proofs": 0, "field_edits": 0, "mismatches": 0, "premise_checks": 0, "draws_seen": 0}
         for suite, fx in Q.suites_for(tier):
             ns = ([1, 2, 3] if tier == "quick" else [1, 2, 3, 4, 5]) if suite == "toy" else [2]
             for n in ns:
@@ -187,6 +187,13 @@ class C15:
                     r = S.run([spokgen_line(x, sig, msgs, U)], expect="ok", label="proof_gen")[0]
                     if r.status != "OK": continue
                     doc = r.json(0); stats["proofs"] += 1
+                    # premises of C15_spok_complete, checked on what the implementation actually did: every logged
+                    # random_bits value is >= 0, every base is invertible modulo N, U is strictly increasing
+                    bad = [d for d in parse_draws(r) if d[0] == "bits" and d[2] < 0]
+                    units = all(math.gcd(b % N, N) == 1 for b in list(x.bases) + list(x.cpk[1:]) + [x.pk[1], x.pk[2]])
+                    stats["premise_checks"] += 1; stats["draws_seen"] += len(parse_draws(r))
+                    if bad or not units or x.cpk[0] != N or any(U[i] >= U[i + 1] for i in range(len(U) - 1)):
+                        P.fail(S, "theorem-premise|spok_complete", "a premise of the completeness theorem does not hold on this run (negative random_bits draw %s, units %s)" % (bad[:1], units), [spokgen_line(x, sig, msgs, U)])
                     S.run([spokver_line(x, doc, msgs, U)], expect=true_, label="proof_verify(proof_gen)")
                     lines = []; labs = []
                     def mm(lab, **kw): lines.append(spokver_line(x, doc, msgs, U, **kw)); labs.append("mismatch:" + lab)
